@@ -75,6 +75,10 @@ EvA0(n, af, o, v, st) == [k |-> "a0", r |-> n, af |-> af, io |-> o, v |-> v, s |
 EvSc(sid, o, os) == [k |-> "sc", sid |-> sid, o |-> o, os |-> os]
 EvSs(sid, o, os) == [k |-> "ss", sid |-> sid, b |-> Cur3(o).b, l |-> Cur3(o).l, c |-> Cur3(o).c, o |-> o, e |-> End, os |-> os]
 EvSd(sid) == [k |-> "sd", sid |-> sid]
+\* action family 8 (contrib/control_action.hpp): Action< Rule >::match brackets match< Rule >() with the action-side hooks
+\* start, then success / failure, or unwind when an exception passes -- for every rule, whatever its control's visibility
+EvCa(k, n, o) == [k |-> k, r |-> n, b |-> Cur3(o).b, l |-> Cur3(o).l, c |-> Cur3(o).c, o |-> o, e |-> End, cf |-> 0]
+CaOn(f) == f.af = 8
 \* actions listed in if_apply / apply / apply0 are called by the rule itself (internal/apply_single.hpp), they log themselves
 EvIa(n, beg, o, v) == [k |-> "ia", n |-> n, b |-> Cur3(beg).b, l |-> Cur3(beg).l, c |-> Cur3(beg).c, o |-> beg, eo |-> o, v |-> v]
 EvI0(n, v) == [k |-> "i0", n |-> n, v |-> v]
@@ -120,7 +124,7 @@ LimClass(f) == LET nm == (IF LimK(f) = 1 THEN "tao::pegtl::limit_depth<" ELSE "t
                    S == {m \in 1..Len(Nodes) : Nodes[m].name = nm}
                IN IF S = {} THEN 0 ELSE CHOOSE m \in S : TRUE
 Min2(a, b) == IF a < b THEN a ELSE b
-ActKind(f) == IF f.A = 1 /\ Enabled(f) /\ ~(f.af = 5 /\ Nodes[f.n].sw > 0) /\ f.af # 4 THEN AKindOf(f.n, f.af) ELSE 0
+ActKind(f) == IF f.A = 1 /\ Enabled(f) /\ ~(f.af = 5 /\ Nodes[f.n].sw > 0) /\ f.af \notin {4, 8} THEN AKindOf(f.n, f.af) ELSE 0
 UseGuard(f) == ActKind(f) \in {1, 3, 4, 5, 6}         \* has_apply || has_apply0_bool   (2, 7: void apply0 -> no guard)
 \* rewind mode the body gets from match(): optional if match() took the guard, else the requested mode
 BodyM(f) == IF Enabled(f) /\ UseGuard(f) THEN 0 ELSE f.M
@@ -158,7 +162,8 @@ Enter ==
                    /\ q' = <<en>> \o sc
               ELSE \* match< Rule >(): guard iff there is an apply or a bool apply0, start hook (limit_bytes has moved the end)
                    /\ fr' = SetTop([g EXCEPT !.pc = "body", !.mg = IF Enabled(g) /\ UseGuard(g) THEN cur ELSE -1])
-                   /\ q' = <<en>> \o sc \o (IF Enabled(g) THEN <<[EvHook("st", f.n, g.cf, cur) EXCEPT !.e = end2]>> ELSE <<>>)
+                   /\ q' = <<en>> \o sc \o (IF CaOn(f) THEN <<EvCa("cst", f.n, cur)>> ELSE <<>>)
+                           \o (IF Enabled(g) THEN <<[EvHook("st", f.n, g.cf, cur) EXCEPT !.e = end2]>> ELSE <<>>)
    /\ ret' = -1
    /\ UNCHANGED <<cur, done>>
 
@@ -455,6 +460,7 @@ After ==
            /\ q' = actev \o hook
                    \o (IF f.nsk = 2 /\ v = 1 /\ f.A = 1 THEN <<EvSs(f.ns, c2, f.s)>> ELSE <<>>)
                    \o (IF f.nsk = 2 THEN <<EvSd(f.ns)>> ELSE <<>>)
+                   \o (IF CaOn(f) THEN <<EvCa(IF v = 1 THEN "csu" ELSE "cfa", f.n, c2)>> ELSE <<>>)
                    \o <<[EvEx(f.n, v, c2) EXCEPT !.e = aux2.end, !.d = IF Cfg.cls = 1 THEN aux2.dep ELSE -1]>>
            /\ aux' = aux2
            /\ IF Len(fr) = 1
@@ -492,6 +498,7 @@ Unwind ==
            IN /\ q' = (IF f.nsk = 1 /\ f.pc = "k" THEN <<EvSd(f.ns)>> ELSE <<>>)
                       \o (IF f.pc # "sw" /\ f.nouw = 0 /\ Enabled(f) /\ HasUnw(f) THEN <<[EvHook("uw", f.n, f.cf, c1) EXCEPT !.e = IF f.rme >= 0 THEN f.rme ELSE End]>> ELSE <<>>)     \* (rematch's own input never changed its end)
                       \o (IF f.nsk = 2 THEN <<EvSd(f.ns)>> ELSE <<>>)
+                      \o (IF CaOn(f) THEN <<EvCa("cuw", f.n, c2)>> ELSE <<>>)
                       \o <<[EvXc(f.n, exc.cls, c2) EXCEPT !.e = aux'.end, !.d = IF Cfg.cls = 1 THEN aux'.dep ELSE -1]>>
               /\ cur' = c2
               /\ IF Len(fr) = 1
